@@ -20,7 +20,10 @@ RULE = ("Program = ORG $1000 / <mnemonic> <operand text> / ZZEND NOP. Operand te
         "consuming all bytes; byte count equals the space the listing reserves (next row address - row address); the "
         "decoded addressing mode, registers and indirection are exactly those written (independent operand-shape "
         "parser); when the value is a plain literal it must fit the width and equal the decoded value. Class (i) must "
-        "be rejected. Non-trivial = statement accepted, or class (i); distinct by (mnemonic, operand text).")
+        "be rejected. Context families: a label,PCR statement followed by 1-3 further label,PCR statements and a gap of "
+        "108..127 bytes; two statements naming one label (at $0010, $00F0, $1000) in every ordered pair of 34 "
+        "mnemonic/operand forms - each statement must decode on its own at the length the listing reserves. "
+        "Non-trivial = statement accepted, or class (i); distinct by (mnemonic, operand text).")
 ASSUMPTIONS = [
     "vlib/ref6809.py is the trusted decoder / mode table",
     "crashes and hangs are judged by C13, not here (counted as skipped)",
@@ -29,7 +32,8 @@ ASSUMPTIONS = [
 HEALTH = {"accepted": 0.012, "class:invalid_by_construction": 1600}
 FUZZ = {"target": "fuzz/fuzz_asm.py", "seconds": {"quick": 0, "thorough": 180}}
 EXHAUSTIVE = {"quick": ["invalid-by-construction operand list x all 139 mnemonics",
-                        "every single-character deletion and duplication of 120 base operands x 12 mnemonics"],
+                        "every single-character deletion and duplication of 120 base operands x 12 mnemonics",
+                        "every ordered pair of 34 forms naming one label x 3 label addresses"],
               "thorough": ["invalid-by-construction operand list x all 139 mnemonics",
                            "every single-character deletion and duplication of 120 base operands x 12 mnemonics"]}
 
@@ -263,6 +267,11 @@ LABEL_OPERANDS = ["ZZEND", "ZZEND+1", "ZZEND-1", "#ZZEND", "<ZZEND", ">ZZEND", "
                   "ZZEND,PCR", "[ZZEND,PCR]", "ZZEND+3,PCR", "ZZEND-3,PCR", "ZZSELF", "ZZSELF,PCR", "#ZZSELF"]
 
 
+_PAIR_FORMS = [(mn, op) for mn in ("LDA", "LDX", "JMP", "STA")
+               for op in ("ZZL", "<ZZL", ">ZZL", "#ZZL", "[ZZL]", "ZZL,X", "[ZZL,Y]", "ZZL+1", "ZZL,PCR")
+               if not (op == "#ZZL" and mn in ("JMP", "STA"))]
+
+
 def enumerated(tier, seed):
     for mn in R.MNEMONICS:
         for text in invalid_operands(mn):
@@ -276,6 +285,12 @@ def enumerated(tier, seed):
             for k in (1, 2, 3):
                 for gap in range(108, 128):
                     yield dict(mn=mn, op=text, cls="label_operand", ctx=dict(k=k, gap=gap))
+    # two statements naming the same label (below and above $100) at every pair of operand forms: the width of
+    # one use must not leak into the other
+    for org in (0x0010, 0x00F0, 0x1000):
+        for a in _PAIR_FORMS:
+            for b in _PAIR_FORMS:
+                yield dict(mn=a[0], op=a[1], cls="pair", pair=dict(org=org, mn2=b[0], op2=b[1]))
     for mn in MUT_MNEMONICS:
         for base in _BASE120:
             for i in range(len(base)):
@@ -326,6 +341,10 @@ def searches(tier):
 
 
 def build(case):
+    if case.get("pair"):
+        pr = case["pair"]
+        return [A.line("", "ORG", "$%04X" % pr["org"]), A.line("ZZL", "NOP"), A.line("", case["mn"], case["op"]),
+                A.line("", pr["mn2"], pr["op2"]), A.line("ZZEND", "NOP")]
     lines = [A.line("", "ORG", "$1000"), A.line("ZZSELF" if "ZZSELF" in case["op"] else "", case["mn"], case["op"])]
     ctx = case.get("ctx")
     if ctx:
@@ -335,6 +354,26 @@ def build(case):
 
 def render(case):
     return dict(case=case, source=[l.rstrip("\n") for l in build(case)])
+
+
+def _judge_pair(case, out, labels, fid):
+    pr = case["pair"]
+    if len(out.rows) != 5 or any(r[0] is None for r in out.rows[1:]):
+        return viol("listing rows unreadable: {}".format([r[2] for r in out.rows]), fid=fid + "listing", labels=labels)
+    img = out.image
+    base = out.rows[1][0]
+    for idx, (mn, text) in ((2, (case["mn"], case["op"])), (3, (pr["mn2"], pr["op2"]))):
+        at = out.rows[idx][0] - base
+        reserved = out.rows[idx + 1][0] - out.rows[idx][0]
+        insn = R.decode(img, at) if 0 <= at < len(img) else None
+        if insn is None or insn.length != reserved or insn.op != R.canon(mn):
+            return viol("{} {} (beside {} {}, label at ${:04X}): bytes {} decode as {} but the listing reserves {}".format(
+                mn, text, *((pr["mn2"], pr["op2"]) if idx == 2 else (case["mn"], case["op"])), base,
+                img[at:at + max(reserved, 1) + 1].hex(), insn, reserved), fid=fid + "size", labels=labels)
+    if len(img) != out.rows[4][0] - base + 1 or img[-1:] != b"\x12":
+        return viol("image of {} bytes does not end with the sentinel at the listed address".format(len(img)),
+                    fid=fid + "layout", labels=labels)
+    return ok(labels=labels, nontrivial=True)
 
 
 def execute(case):
@@ -352,6 +391,8 @@ def execute(case):
     if cls == "invalid_by_construction":
         return viol("{} {} must be rejected but was accepted as {}".format(mn, text, out.image.hex()),
                     fid=fid + "accepted-invalid", labels=labels)
+    if case.get("pair"):
+        return _judge_pair(case, out, labels, fid)
     img = out.image
     ctx = case.get("ctx")
     want_rows = 3 + (ctx["k"] + 1 if ctx else 0)
